@@ -1,6 +1,8 @@
 package rules
 
 import (
+	"strings"
+
 	"gmcheck/core"
 
 	"golang.org/x/tools/go/ssa"
@@ -18,6 +20,9 @@ func (c *Ctx) TLGObs(include func(fn *ssa.Function) bool, armed func(fn *ssa.Fun
 		}
 		if s.Kind == "loop" && !withLoop {
 			continue
+		}
+		if strings.HasPrefix(s.Kind, "inflate") {
+			continue // evaluated against the protocol maximum by R-TLG-MAX
 		}
 		ob := core.Ob{Rule: "R-TLG", Key: s.Key(), Pos: c.P.Pos(s.Pos), Func: core.FnName(s.Fn), Want: s.Want,
 			Got: s.Got + "; source: " + s.Src, Armed: armed(s.Fn)}
